@@ -263,6 +263,54 @@ def rule_escaping(ctx):
     ctx.ob(R, ff, ff.node, var is not None and ("n={" + var + "}") in src.replace("!s", "") or (var is not None and f"'n=' + {var}" in src), "the escaped name is not what is sent in the n= field", text="escaped-is-sent")
 
 
+def rule_driver(ctx):
+    R = "driver-exhausts"
+    ctx.rep.rule(R, "the handshake loop of the connection steps the authenticator until it is exhausted: the only normal way out of the loop is "
+                    "`authenticator.step()` having returned None (for SCRAM that is where the server signature is verified); every reply of the "
+                    "broker is fed to the next step; the SCRAM authenticator is the one used for SCRAM mechanisms")
+    fi = ctx.fn("aiokafka.conn.AIOKafkaConnection._do_sasl_handshake")
+    c = ctx.cfg(fi)
+    steps = [n for n in c.nodes if n.kind == "await" and isinstance(n.ast, ast.Await) and isinstance(n.ast.value, ast.Call) and call_attr(n.ast.value) == "step"]
+    steps = [n for n in steps if unparse(n.ast.value.func.value) == "authenticator"]
+    ctx.anchor(len(steps) == 1, "await authenticator.step(...) in _do_sasl_handshake")
+    st = steps[0]
+    loops = [a for a, role in st.within if isinstance(a, ast.While) and role == "body"]
+    ctx.anchor(len(loops) == 1, "handshake loop")
+    head = c.loop_head(loops[0])
+    body = c.loop_body(head)
+    resv = unparse(st.stmt.targets[0]) if isinstance(st.stmt, ast.Assign) else None
+    tests = [t for t in body if t.kind == "test" and resv is not None and is_none_test(t.ast) is not None and unparse(is_none_test(t.ast)) == resv]
+    ctx.anchor(len(tests) == 1, "`res is None` test after the step")
+    done_edge = [m for m, l in tests[0].succ if l == "T"]
+    # normal exits of the loop: edges from a body node to a node outside the body (raise/exception edges excluded)
+    exits = []
+    for n in body:
+        for m, l in n.succ:
+            if l in ("exc", "raise") or m in body or m is c.raise_exit:
+                continue
+            if c.exit not in c.reachable([m], exc=False, include_src=True):
+                continue   # this way out ends in a raise: the login fails, nothing is reported successful
+            exits.append((n, m))
+    bad = []
+    for n, m in exits:
+        # the exit must be reachable only through the `res is None` branch, with no further step in between
+        if not c.dominated_by_branch(tests[0], "T", n) and n is not tests[0]:
+            bad.append(n)
+        elif n is tests[0] and m not in done_edge:
+            bad.append(n)
+    ctx.ob(R, fi, head, not bad, f"the handshake can leave the loop without the authenticator being exhausted (at lines {sorted({b.lineno for b in bad})}): "
+                                 "the last step -- verification of the server's signature for SCRAM -- is skipped and the login is reported successful", text="exits-only-when-exhausted")
+    # what the broker answered is what the next step sees
+    arg = unparse(arg_of(st.ast.value, 0)) if st.ast.value.args else None
+    stores = [n for n in body if n.kind == "store" and unparse(n.ast) == arg]
+    okf = bool(stores) and all(("sasl_auth_bytes" in unparse(n.stmt.value) or "_send_sasl_token" in unparse(n.stmt.value)) for n in stores)
+    ctx.ob(R, fi, st, okf, "the bytes handed to the next authenticator step are not the broker's reply", text="reply-fed-to-step")
+    src = unparse(fi.node)
+    sel = [n for n in ast.walk(fi.node) if isinstance(n, ast.If) and "SCRAM-SHA-" in unparse(n.test)]
+    oks = bool(sel) and any("authenticator_scram()" in unparse(x) for x in sel[0].body)
+    ctx.ob(R, fi, fi.node, oks, "SCRAM mechanisms do not use the SCRAM authenticator", text="scram-authenticator-selected")
+
+
 def run(ctx):
     rep = ctx.rep
     rep.explanation = ("C18 structural clauses of ScramAuthenticator: nonce prefix check dominating all key derivation; the login generator ends only "
@@ -272,4 +320,5 @@ def run(ctx):
     rule_verify(ctx)
     rule_provenance(ctx)
     rule_escaping(ctx)
+    rule_driver(ctx)
     rep.nd("that a real server accepts the messages (HMAC / PBKDF2 values themselves)")
